@@ -194,3 +194,8 @@ def run(rep, programs):
     c03.r_unreserve_owned(rep, prog)
     from props import c17
     c17.r_nvm_layout(rep, prog)      # premise of the ledger entry for NvmAlloc::create
+    # recover indexes the bitfields by the position of the table entry: its skip guard keeps that index inside the slice for a
+    # partial last tree (premise of the ledger entry for Lower::bitfield)
+    from props import c05
+    c05.r_recover_domain(rep, prog)
+    c05.r_recover_complete(rep, prog)
